@@ -88,7 +88,7 @@ def main():
             bad = [x for x in ax if x not in common.ALLOWED_AXIOMS]
             if bad:
                 broken.append(f"{n}: axioms {bad}")
-    for h in common.forbidden_scan():
+    for h in common.forbidden_scan(mod.PROP_FILES + ["N2k/Driver/Core.lean"]):
         broken.append("forbidden token: " + h)
     for p in rel_problems:
         broken.append("translation: " + p)
